@@ -179,6 +179,10 @@ impl Default for ValOpts {
     }
 }
 
+thread_local! {
+    static VARIANT_LEVEL: std::cell::Cell<usize> = const { std::cell::Cell::new(0) };
+}
+
 pub fn gen_val(src: &mut Src, s: &RSig, o: &ValOpts, so: &SigOpts, fuel: &mut usize) -> RVal {
     match s {
         RSig::Y => RVal::Y(gen_u64(src) as u8),
@@ -195,10 +199,21 @@ pub fn gen_val(src: &mut Src, s: &RSig, o: &ValOpts, so: &SigOpts, fuel: &mut us
         RSig::G => RVal::G(gen_sig_string(src, o.multi_sig)),
         RSig::H => RVal::H(src.below(o.nfds.max(1) as usize) as u32),
         RSig::V => {
+            // variants within variants: at most 8 levels (each level brings up to 3 containers of its
+            // own), so that every generated value stays well inside the nesting limits whatever the
+            // length of the choice string — values around the limits are C07's (and C03's) subject
+            let level = VARIANT_LEVEL.with(|l| l.get());
             let mut sfuel = (*fuel).min(4);
             let so2 = SigOpts { max_depth: so.max_depth.min(3), ..*so };
-            let inner = gen_sig(src, &so2, 0, &mut sfuel);
+            let inner = if level >= 8 {
+                let _ = gen_sig(src, &so2, 0, &mut sfuel);
+                RSig::U
+            } else {
+                gen_sig(src, &so2, 0, &mut sfuel)
+            };
+            VARIANT_LEVEL.with(|l| l.set(level + 1));
             let v = gen_val(src, &inner, o, so, fuel);
+            VARIANT_LEVEL.with(|l| l.set(level));
             RVal::V(Box::new((inner, v)))
         }
         RSig::A(e) => {
@@ -262,6 +277,7 @@ fn gen_len(src: &mut Src, o: &ValOpts, fuel: &mut usize, bytes: bool) -> usize {
 
 /// A complete (sig, value) pair.
 pub fn gen_typed(src: &mut Src, so: &SigOpts, vo: &ValOpts) -> (RSig, RVal) {
+    VARIANT_LEVEL.with(|l| l.set(0));
     let mut sfuel = 1 + src.below(8);
     let s = gen_sig(src, so, 0, &mut sfuel);
     let mut vfuel = 24;
@@ -339,6 +355,7 @@ pub fn gen_bus_name(src: &mut Src) -> String {
 
 /// message body: 0..=4 arguments
 pub fn gen_body(src: &mut Src, so: &SigOpts, vo: &ValOpts) -> Vec<RVal> {
+    VARIANT_LEVEL.with(|l| l.set(0));
     let n = src.weighted(&[3, 5, 4, 2, 1]);
     (0..n)
         .map(|_| {
